@@ -1,0 +1,26 @@
+//go:build verif
+
+package pool
+
+import "sync/atomic"
+
+// YieldHook is called, when set, at the named synchronisation points of the pool
+// (before/after the counter update, the result write and the notification send of the workers,
+// around the select and the wait loop of Parallelize/Search). It exists only in builds with the
+// `verif` tag; a verification harness installs a function that parks the calling goroutine until
+// a scheduler lets it continue, so that every interleaving of caller and workers can be driven
+// deterministically. Unset, every yield point is a no-op.
+type YieldHook func(point string)
+
+type yieldBox struct{ h YieldHook }
+
+var yieldHook atomic.Value // yieldBox
+
+// SetYieldHook installs (or, with nil, removes) the hook for all pools of the process.
+func SetYieldHook(h YieldHook) { yieldHook.Store(yieldBox{h}) }
+
+func yield(point string) {
+	if b, ok := yieldHook.Load().(yieldBox); ok && b.h != nil {
+		b.h(point)
+	}
+}
